@@ -114,7 +114,18 @@ struct St
   std::atomic<uint64_t> ioTid{0};
   std::mutex m;
   std::map<uint64_t, std::string> data;
-  St() { for (auto &x : fenceViol) x = 0; for (auto &x : cbCount) x = 0; }
+  // re-entry: public operations called from INSIDE callbacks while teardown is under way
+  std::atomic<bool> reentry{false};
+  std::atomic<bool> tdActive{false};
+  std::atomic<int> reIn{0};                 // 1 + nested op currently executing on the I/O thread (0 = none)
+  std::atomic<int> reCb{0};
+  std::atomic<uint64_t> reSeq{0}, reTotal{0};
+  std::atomic<uint64_t> reSid{0};
+  std::atomic<uint32_t> rePort{0};
+  std::atomic<uint64_t> reReturned[16], reLogic[16], reDuringDrain[16];
+  std::mutex reM;
+  std::vector<std::pair<std::string, std::string>> reViol; // (key suffix, what)
+  St() { for (auto &x : fenceViol) x = 0; for (auto &x : cbCount) x = 0; for (auto &x : reReturned) x = 0; for (auto &x : reLogic) x = 0; for (auto &x : reDuringDrain) x = 0; }
 };
 struct FreedToken { std::shared_ptr<std::atomic<bool>> flag; ~FreedToken() { flag->store(true); } };
 
@@ -136,6 +147,82 @@ static void dropHolder(const std::shared_ptr<St> &st)
   st->holder->reset();
 }
 
+// ------------------------------------------------------------------------------ re-entry from callbacks
+// While another thread's stop() / last-owner release is draining, the callbacks it fires call public
+// operations themselves. None of them may hang; stop() returns or throws logic_error; the blocking
+// operations refuse the I/O thread with logic_error; the others give a definite result.
+enum Re { ReStop = 0, ReSend, ReClose, ReConnect, ReAddListener, ReSetReadMode, ReStart, ReConnectSync, ReReceiveSync, ReStats, NRe };
+static const char *kRe[] = {"stop", "send", "close", "connect", "addListener", "setReadMode", "start", "connectSync", "receiveSync", "getStats"};
+enum ReCb { RcClose = 0, RcData, RcObserver, RcCleanup, NRc };
+static const char *kRc[] = {"onClose", "onData", "close-observer", "session-data-cleanup"};
+static std::atomic<int64_t> g_curIdx{-1};
+static bool g_nestedStart = false; // nested start() runs only in a dedicated group of processes (see lib/props/c05.py)
+static thread_local char g_crashLine[600]; // per thread: the handler runs on the thread that aborted
+static int g_outFd = 1;
+static std::string g_tdp;
+static void onAbort(int)
+{
+  // std::terminate()/assert inside a nested operation: say which one before dying
+  size_t n = strlen(g_crashLine);
+  if (n) { ssize_t w = ::write(g_outFd, g_crashLine, n); (void)w; }
+  _exit(6);
+}
+static void reenter(const std::shared_ptr<St> &st, ReCb cb)
+{
+  if (!st->reentry.load() || !st->tdActive.load() || tlsInFlush) return;
+  if (st->reTotal.fetch_add(1) >= 48) return; // bounded per iteration
+  Transport *tp = st->raw;
+  int op = int(st->reSeq.fetch_add(1) % NRe);
+  if (op == ReStart && !g_nestedStart) op = ReStats;
+  bool draining = !tp->isRunning();
+  st->reCb = cb;
+  snprintf(g_crashLine, sizeof g_crashLine, "{\"t\":\"stuck\",\"idx\":%lld,\"key\":\"C05:crash:%s-called-from-a-callback-while-teardown-%s:%s\",\"callback\":\"%s\"}\n",
+           (long long)g_curIdx.load(), kRe[op], draining ? "drains" : "begins", g_tdp.c_str(), kRc[cb]);
+  st->reIn = op + 1;
+  bool returned = false, logic = false;
+  std::string detail;
+  try
+  {
+    SessionId sid = st->reSid.load();
+    switch (op)
+    {
+    case ReStop: tp->stop(); break;
+    case ReSend: (void)tp->send(sid, "re", 2); break;
+    case ReClose: (void)tp->close(sid); break;
+    case ReConnect: { auto r = tp->connect("127.0.0.1", uint16_t(st->rePort.load()), TlsMode::None); (void)r; break; }
+    case ReAddListener: { auto r = tp->addListener("127.0.0.1", 0, TlsMode::None); (void)r; break; }
+    case ReSetReadMode: (void)tp->setReadMode(sid, ReadMode::Sync); break;
+    case ReStart: { auto r = tp->start(); detail = r.isOk() ? "ok" : "err"; break; }
+    case ReConnectSync: { auto r = tp->connectSync("127.0.0.1", uint16_t(st->rePort.load()), TlsMode::None, std::chrono::milliseconds(30)); (void)r; break; }
+    case ReReceiveSync: { char b[16]; size_t l = sizeof b; auto r = tp->receiveSync(sid, b, l, std::chrono::milliseconds(20)); (void)r; break; }
+    default: (void)tp->getStats(); (void)tp->isRunning(); break;
+    }
+    returned = true;
+  }
+  catch (const std::logic_error &) { logic = true; }
+  catch (const std::exception &ex)
+  {
+    std::lock_guard<std::mutex> g(st->reM);
+    st->reViol.push_back({std::string("unexpected-exception:") + kRe[op] + "-from-" + kRc[cb], std::string(kRe[op]) + " called from " + kRc[cb] + " during teardown threw " + ex.what()});
+  }
+  st->reIn = 0;
+  g_crashLine[0] = 0;
+  if (returned) st->reReturned[op]++;
+  if (logic) st->reLogic[op]++;
+  if (draining) st->reDuringDrain[op]++;
+  // the blocking operations must refuse the I/O thread (they would wait for this very thread)
+  if (returned && (op == ReSetReadMode || op == ReConnectSync || op == ReReceiveSync))
+  {
+    std::lock_guard<std::mutex> g(st->reM);
+    st->reViol.push_back({std::string("blocking-op-accepted-on-io-thread:") + kRe[op], std::string(kRe[op]) + " called from " + kRc[cb] + " on the I/O thread returned instead of throwing std::logic_error"});
+  }
+  if (returned && op == ReStart && detail == "ok")
+  {
+    std::lock_guard<std::mutex> g(st->reM);
+    st->reViol.push_back({"start-from-callback-accepted", std::string("start() called from ") + kRc[cb] + " on the I/O thread while teardown " + (draining ? "drains" : "begins") + " returned ok"});
+  }
+}
+
 // ------------------------------------------------------------------------------ call registry
 enum Op { OpConnectSync = 0, OpReceiveSync, OpFlush, OpSend, OpClose, OpAddListener, OpConnect, OpStop, OpDrop, OpMisc, NOp };
 static const char *kOp[] = {"connectSync", "receiveSync", "setReadMode-flush", "send", "close", "addListener", "connect", "stop", "drop-last-owner", "misc"};
@@ -154,7 +241,6 @@ struct Worker
   uint64_t t0 = 0, t1 = 0;
 };
 
-static std::atomic<int64_t> g_curIdx{-1};
 static std::string g_curDesc;
 static vfnet::Heartbeat *g_hb = nullptr;
 
@@ -197,13 +283,17 @@ static bool runIter(uint64_t seed, uint64_t idx, int onlyTd, int onlyProto)
   int nStorm = selfDestruct ? 0 : int(rng.range(1, 4));
   uint32_t slowClose = rng.chance(0.6) ? uint32_t(rng.range(50, 1500)) : 0;
   uint32_t cvDelay = rng.chance(0.6) ? uint32_t(rng.range(100, 3000)) : 0;
+  // callbacks fired while teardown is under way call public operations themselves (not in the
+  // self-destruct kinds: there the Transport object is gone once the callback has dropped it)
+  bool reentry = !selfDestruct && (rng.chance(0.4) || g_nestedStart);
   int cycles = td == Cycles ? int(rng.range(2, 4)) : 1;
   char desc[384];
-  snprintf(desc, sizeof desc, "{\"idx\":%llu,\"proto\":\"%s\",\"teardown\":\"%s\",\"park_connect\":%d,\"park_recv\":%d,\"flushers\":%d,\"racers\":%d,\"storm\":%d,\"edge_connect\":%d,\"edge_recv\":%d,\"slow_close_us\":%u,\"cv_delay_us\":%u}",
-           (unsigned long long)idx, udp ? "udp" : "tcp", kTd[td], nParkConn, nParkRecv, nFlush, nRacers, nStorm, nEdgeConn, nEdgeRecv, slowClose, cvDelay);
+  snprintf(desc, sizeof desc, "{\"idx\":%llu,\"proto\":\"%s\",\"teardown\":\"%s\",\"park_connect\":%d,\"park_recv\":%d,\"flushers\":%d,\"racers\":%d,\"storm\":%d,\"edge_connect\":%d,\"edge_recv\":%d,\"reentry\":%d,\"slow_close_us\":%u,\"cv_delay_us\":%u}",
+           (unsigned long long)idx, udp ? "udp" : "tcp", kTd[td], nParkConn, nParkRecv, nFlush, nRacers, nStorm, nEdgeConn, nEdgeRecv, reentry ? 1 : 0, slowClose, cvDelay);
   g_curDesc = desc;
   O.line(std::string("{\"t\":\"begin\",\"idx\":") + std::to_string(idx) + ",\"scn\":\"" + kTd[td] + ":" + (udp ? "udp" : "tcp") + "\",\"desc\":" + desc + "}");
   const std::string tdp = std::string(kTd[td]) + ":" + (udp ? "udp" : "tcp");
+  g_tdp = tdp;
 #if !VF_TSAN
   vf::shim::condvarPolicy().seed = seed * 7919 + idx;
   vf::shim::condvarPolicy().permille = uint32_t(rng.range(200, 1000));
@@ -231,6 +321,8 @@ static bool runIter(uint64_t seed, uint64_t idx, int onlyTd, int onlyProto)
   auto tok = std::make_shared<FreedToken>();
   tok->flag = implFreed;
   st->slowCloseUs = slowClose;
+  st->reentry = reentry;
+  st->reSeq = rng.below(NRe); // the rotation of nested operations starts at a seeded position
   TransportConfig cfg;
   std::shared_ptr<Transport> t = makeTransport(udp, cfg, st);
   st->raw = t.get();
@@ -249,7 +341,7 @@ static bool runIter(uint64_t seed, uint64_t idx, int onlyTd, int onlyProto)
       return;
     }
     bool isTrig = d.size() >= 4 && memcmp(d.data(), "TRIG", 4) == 0;
-    if (!isTrig) { std::lock_guard<std::mutex> g(st->m); auto &s = st->data[sid]; if (s.size() < 4096) s.append((const char *)d.data(), d.size()); return; }
+    if (!isTrig) { { std::lock_guard<std::mutex> g(st->m); auto &s = st->data[sid]; if (s.size() < 4096) s.append((const char *)d.data(), d.size()); } reenter(st, RcData); return; }
     if (!st->triggerArmed.load() || st->triggered.exchange(true)) return;
     int tr = st->trigger.load();
     if (tr == 3) dropHolder(st);
@@ -263,6 +355,7 @@ static bool runIter(uint64_t seed, uint64_t idx, int onlyTd, int onlyProto)
   t->onClose([st, tok](SessionId sid, const TransportErrorInfo &) {
     cbEnter(st, CbClose);
     if (uint32_t us = st->slowCloseUs.load()) vf::sleepMs(double(us) / 1000.0);
+    reenter(st, RcClose);
     if (st->trigger.load() == 2 && st->triggerArmed.load() && (st->closeOnTrigger.load() == 0 || st->closeOnTrigger.load() == sid) && !st->triggered.exchange(true)) dropHolder(st);
   });
   tok.reset(); // the callbacks stored in Impl are now the only owners: the flag flips when Impl is freed
@@ -307,6 +400,16 @@ static bool runIter(uint64_t seed, uint64_t idx, int onlyTd, int onlyProto)
     {
       auto lr = t->addListener("127.0.0.1", 0, TlsMode::None);
       if (lr.isOk()) { uint16_t lp = t->getListenerAddress(lr.value()).port; if (lp) uecho->sendTo(lp, "hello-listener"); }
+    }
+    if (reentry)
+    {
+      st->reSid = spare[2];
+      st->rePort = udp ? uecho->port() : echo->port();
+      for (size_t k = 1; k < spare.size(); k++)
+      {
+        t->observe(spare[k], [st](SessionId, const TransportErrorInfo &) { if (st->fence.load()) st->fenceViol[CbClose]++; reenter(st, RcObserver); });
+        t->setSessionData(spare[k], st.get(), [st](void *) { if (st->fence.load()) st->fenceViol[CbClose]++; reenter(st, RcCleanup); });
+      }
     }
     for (auto s : recvSids) t->setReadMode(s, ReadMode::Sync);
     std::vector<SessionId> flushReady;
@@ -548,6 +651,7 @@ static bool runIter(uint64_t seed, uint64_t idx, int onlyTd, int onlyProto)
       if (!t->isRunning()) O.viol("C05:stop-from-callback-stopped-the-transport:" + tdp, "transport no longer running after a refused stop() from a callback", desc);
       tdT0 = vf::nowNs();
     }
+    st->tdActive = true;
     tdBegun = true;
     uint32_t holdMs = uint32_t(rng.below(4));
     if (td == StopOther || td == StopFromCb || td == Cycles) addStopper(nullptr);
@@ -597,6 +701,14 @@ static bool runIter(uint64_t seed, uint64_t idx, int onlyTd, int onlyProto)
       {
         uint64_t gap = g_hb->maxGapNs(tdT0.load(), now);
         bool any = false;
+        if (int ro = st->reIn.load())
+        {
+          // an operation called from inside a callback never came back: the I/O thread is stuck in it,
+          // and with it the stop()/release that is waiting for that thread
+          std::string key = std::string("C05:stranded:") + kRe[ro - 1] + "-called-from-a-callback-while-teardown-drains:" + tdp;
+          O.line("{\"t\":\"stuck\",\"idx\":" + std::to_string(idx) + ",\"key\":" + vf::jstr(key) + ",\"callback\":\"" + kRc[st->reCb.load()] + "\",\"hb_gap_ms\":" + std::to_string(gap / 1000000ull) + ",\"desc\":" + desc + "}");
+          O.flush(); fflush(nullptr); _exit(5);
+        }
         if ((selfDestruct && !st->triggered.load()) || (td == StopFromCb && !tdBegun.load()))
         {
           // the raw peer's trigger never reached the callback: nothing was torn down, nothing to judge
@@ -620,6 +732,21 @@ static bool runIter(uint64_t seed, uint64_t idx, int onlyTd, int onlyProto)
     uint64_t tdDoneNs = vf::nowNs();
     O.obsMax("max_teardown_to_all_returned_ms", (tdDoneNs - tdT0.load()) / 1000000ull);
     for (auto &w : W) w->th.join();
+    st->tdActive = false;
+    if (reentry)
+    {
+      O.obs("reentry_iterations");
+      for (int k = 0; k < NRe; k++)
+      {
+        if (uint64_t n = st->reReturned[k].exchange(0)) O.obs(std::string("nested_") + kRe[k] + "_from_callback_returned", n);
+        if (uint64_t n = st->reLogic[k].exchange(0)) O.obs(std::string("nested_") + kRe[k] + "_from_callback_threw_logic_error", n);
+        if (uint64_t n = st->reDuringDrain[k].exchange(0)) O.obs(std::string("nested_") + kRe[k] + "_issued_while_another_threads_teardown_drains", n);
+      }
+      std::lock_guard<std::mutex> g(st->reM);
+      for (auto &v : st->reViol) O.viol("C05:reentry:" + v.first + ":" + tdp, v.second, desc);
+      st->reViol.clear();
+      st->reTotal = 0;
+    }
 
     // ---- coverage: which parked kinds did teardown actually hit
     if (selfDestruct && st->snapConn.load() >= 0) { hit.conn = size_t(st->snapConn.load()); hit.recv = size_t(st->snapRecv.load()); hit.flush = size_t(st->snapFlush.load()); }
@@ -769,12 +896,16 @@ int main(int argc, char **argv)
   uint64_t seed = A.u("seed", 1), from = A.u("from", 0), count = A.u("count", 1);
   int onlyTd = A.has("td") ? int(A.u("td", 0)) : -1;
   int onlyProto = A.has("proto") ? int(A.u("proto", 0)) : -1;
+  g_nestedStart = A.u("nested-start", 0) != 0;
   vfnet::Heartbeat hb;
   g_hb = &hb;
+  g_outFd = fileno(vf::out().f);
+  ::signal(SIGABRT, onAbort);
   for (uint64_t i = from; i < from + count; i++)
   {
     g_curIdx = int64_t(i);
     runIter(seed, i, onlyTd, onlyProto);
+    vf::out().flush(); // per iteration: a later iteration that ends the process must not take these counters with it
   }
 #if !VF_TSAN
   vf::out().obs("condvar_waits_seen_by_shim", vf::shim::condvarPolicy().waits.load());
